@@ -1067,14 +1067,14 @@ dec_harness!(dec2_t3_w000, T3, ref_t3, WIDE1, h3(0, 0, 0), |h| T3(u8c(h[0]), u8c
 enc_store_harness!(enc2_t23, T23, 32, ref_t23, |v| v.1 >= 24);
 // @harness name=dec2_t23_11 props=C09 kind=complete
 dec_harness_u!(dec2_t23_11, 26, skip0, T23 => T23, 32, ref_t23, PREF, h2(1, 1), |h| T23(u8c(h[0]), u8c(h[1])), |v| v);
-// @harness name=enc2_al props=C08,C07 kind=complete
-enc_harness!(enc2_al, AL, 16, ref_al, |v| true, true, v.a >= 24);
+// @harness name=enc2_lead_struct props=C08,C07 kind=complete
+enc_harness!(enc2_lead_struct, AL, 16, ref_al, |v| true, true, v.a >= 24);
 // @harness name=dec2_al_11 props=C09 kind=complete
 dec_harness!(dec2_al_11, AL, ref_al, PREF, h2(1, 1), |h| AL { a: u8c(h[0]), b: u8c(h[1]) });
 // @harness name=dec2_al_w00 props=C09 kind=complete
 dec_harness!(dec2_al_w00, AL, ref_al, WIDE1, h2(0, 0), |h| AL { a: u8c(h[0]), b: u8c(h[1]) });
-// @harness name=enc2_al2 props=C08,C07 kind=complete
-enc_harness!(enc2_al2, AL2, 16, ref_al2, |v| true, true, v.0 >= 24);
+// @harness name=enc2_lead_tuple props=C08,C07 kind=complete
+enc_harness!(enc2_lead_tuple, AL2, 16, ref_al2, |v| true, true, v.0 >= 24);
 // @harness name=dec2_al2_1 props=C09 kind=complete
 dec_harness!(dec2_al2_1, AL2, ref_al2, PREF, h1(1), |h| AL2(u8c(h[0])));
 // @harness name=dec2_al2_0 props=C09 kind=complete
@@ -1115,7 +1115,9 @@ pub mod optc {
         Ok(())
     }
     pub fn decode<'b, C>(d: &mut Decoder<'b>, _: &mut C) -> Result<Opt, minicbor::decode::Error> {
-        if d.datatype()? == minicbor::data::Type::Null { d.null()?; Ok(Opt(0)) } else { d.u8().map(Opt) }
+        // NULL is probed on the raw byte (`Decoder::datatype` dispatches over every initial byte: expensive for CBMC)
+        let p = d.position();
+        if d.input().get(p) == Some(&0xf6) { d.set_position(p + 1); Ok(Opt(0)) } else { d.u8().map(Opt) }
     }
     pub fn is_nil(v: &Opt) -> bool { v.0 == 0 }
     pub fn nil() -> Option<Opt> { Some(Opt(0)) }
@@ -1139,23 +1141,29 @@ family! {
         #[cbor(n(3), has_nil, with = "optc")] o3: Opt
     }
 }
-fn fo(idx: u32, v: &Opt) -> F { if v.0 == 0 { absent(idx) } else { fu(idx, v.0 as u64) } }
+/// `claim`: AUTO, or the harness's claim about presence (1 present, 0 absent), asserted - keeps the layout concrete (decode side)
+fn fo(idx: u32, v: &Opt, claim: u8) -> F {
+    let present = if claim == AUTO { v.0 != 0 } else { chk!((claim == 1) == (v.0 != 0), "reference encoder: claimed presence is the actual one"); claim == 1 };
+    if present { fu(idx, v.0 as u64) } else { absent(idx) }
+}
 fn ref_ca<const N: usize>(o: &mut Out<N>, v: &CA, h: &Hints, fr: Fr) {
-    o.structure(false, NOTAG, &[cls(h[0], fo(0, &v.o0)), cls(h[1], fo(1, &v.o1)), cls(h[2], fo(2, &v.o2)), cls(h[3], fo(3, &v.o3))], fr)
+    o.structure(false, NOTAG, &[cls(h[0], fo(0, &v.o0, h[4])), cls(h[1], fo(1, &v.o1, h[5])), cls(h[2], fo(2, &v.o2, h[6])), cls(h[3], fo(3, &v.o3, h[7]))], fr)
 }
 fn ref_cm<const N: usize>(o: &mut Out<N>, v: &CM, h: &Hints, fr: Fr) {
-    o.structure(true, NOTAG, &[cls(h[0], fo(0, &v.o0)), cls(h[1], fo(1, &v.o1)), cls(h[2], fo(2, &v.o2)), cls(h[3], fo(3, &v.o3))], fr)
+    o.structure(true, NOTAG, &[cls(h[0], fo(0, &v.o0, h[4])), cls(h[1], fo(1, &v.o1, h[5])), cls(h[2], fo(2, &v.o2, h[6])), cls(h[3], fo(3, &v.o3, h[7]))], fr)
 }
 // @harness name=enc2_codec_arr props=C08,C07 kind=complete note="custom codecs with is_nil in four attribute orders, array encoding"
-enc_harness!(enc2_codec_arr, CA, 16, ref_ca, |v| true, true, v.o1.0 == 0 && v.o3.0 != 0);
+enc_store_harness!(enc2_codec_arr, CA, 16, ref_ca, |v| v.o1.0 == 0 && v.o3.0 != 0);
 // @harness name=enc2_codec_map props=C08,C07 kind=complete note="custom codecs with is_nil in four attribute orders, map encoding"
-enc_harness!(enc2_codec_map, CM, 16, ref_cm, |v| true, true, v.o1.0 == 0 && v.o3.0 != 0);
-// @harness name=dec2_codec_arr_full props=C09 kind=complete tier=thorough
-dec_harness!(dec2_codec_arr_full, skip0, CA => CA, 24, ref_ca, PREF, [1, 1, 1, 1, AUTO, AUTO, AUTO, AUTO], |h| CA { o0: Opt(u8c(1)), o1: Opt(u8c(1)), o2: Opt(u8c(1)), o3: Opt(u8c(1)) }, |v| v);
-// @harness name=dec2_codec_arr_trim props=C09 kind=complete tier=thorough note="o2, o3 absent (trimmed): nil() supplies them"
-dec_harness!(dec2_codec_arr_trim, skip0, CA => CA, 24, ref_ca, PREF, [1, 1, AUTO, AUTO, AUTO, AUTO, AUTO, AUTO], |h| CA { o0: Opt(u8c(1)), o1: Opt(u8c(1)), o2: Opt(0), o3: Opt(0) }, |v| v);
-// @harness name=dec2_codec_map_omit props=C09 kind=complete tier=thorough note="o2, o3 absent (omitted): nil() supplies them"
-dec_harness!(dec2_codec_map_omit, skip0, CM => CM, 24, ref_cm, PREF, [1, 1, AUTO, AUTO, AUTO, AUTO, AUTO, AUTO], |h| CM { o0: Opt(u8c(1)), o1: Opt(u8c(1)), o2: Opt(0), o3: Opt(0) }, |v| v);
+enc_store_harness!(enc2_codec_map, CM, 16, ref_cm, |v| v.o1.0 == 0 && v.o3.0 != 0);
+// @harness name=dec2_codec_arr_full props=C09 kind=complete
+dec_harness!(dec2_codec_arr_full, skip0, CA => CA, 24, ref_ca, PREF, [1, 1, 1, 1, 1, 1, 1, 1], |h| CA { o0: Opt(u8c(1)), o1: Opt(u8c(1)), o2: Opt(u8c(1)), o3: Opt(u8c(1)) }, |v| v);
+// @harness name=dec2_codec_arr_trim props=C09 kind=complete note="o2, o3 absent (trimmed): nil() supplies them"
+dec_harness!(dec2_codec_arr_trim, skip0, CA => CA, 24, ref_ca, PREF, [1, 1, AUTO, AUTO, 1, 1, 0, 0], |h| CA { o0: Opt(u8c(1)), o1: Opt(u8c(1)), o2: Opt(0), o3: Opt(0) }, |v| v);
+// @harness name=dec2_codec_arr_null props=C09 kind=complete note="o1 absent below the highest present index: NULL at position 1; o3 trimmed"
+dec_harness!(dec2_codec_arr_null, skip0, CA => CA, 24, ref_ca, PREF, [1, AUTO, 1, AUTO, 1, 0, 1, 0], |h| CA { o0: Opt(u8c(1)), o1: Opt(0), o2: Opt(u8c(1)), o3: Opt(0) }, |v| v);
+// @harness name=dec2_codec_map_omit props=C09 kind=complete note="o2, o3 absent (omitted): nil() supplies them"
+dec_harness!(dec2_codec_map_omit, skip0, CM => CM, 24, ref_cm, PREF, [1, 1, AUTO, AUTO, 1, 1, 0, 0], |h| CM { o0: Opt(u8c(1)), o1: Opt(u8c(1)), o2: Opt(0), o3: Opt(0) }, |v| v);
 
 // ---- 5. borrowing: after decoding, `&str` / `&ByteSlice` / `Cow::Borrowed` fields point INTO the input buffer (payload <= 3 bytes)
 #[derive(Encode, Decode)]
